@@ -236,6 +236,19 @@ def exists_edges(v, item):
             if any(o.kind == "item" and o.a == item for o in items):
                 te, fe = cmp_true_false_edges(v, b, c)
                 out.append((b, fe if c.neg else te))
+    # `REG.may_load(..)?.ok_or(NotFound)?`: the entry exists on the Continue edge of the second `?`
+    with v.opaque(r"^std::option::Option::(ok_or|ok_or_else)$"):
+        for b in sorted(v.live_blocks()):
+            te_ = try_edges(v, b)
+            if not te_:
+                continue
+            cont, brk, bblock, inner = te_
+            for o in v.origins_of_operand(inner, at=v.at_term(bblock)):
+                c_ = call_of(v, o)
+                if c_ and re.search(r"Option::(ok_or|ok_or_else)$", mname(c_[1])):
+                    src = v.origins_of_operand(c_[1]["args"][0], at=v.at_term(c_[0]))
+                    if src and all(x.kind == "load" and x.a == item for x in src):
+                        out.append((b, cont))
     return out
 
 
